@@ -134,7 +134,11 @@ func (w *World) observeServer() {
 		w.socks[s.Id()] = s
 		w.order = append(w.order, s.Id())
 		w.mu.Unlock()
-		w.rec.Log("srv.connection", append(w.snap(s), "proto", s.Protocol(), "clients", w.Srv.Clients().Len(), "count", int64(w.Srv.ClientsCount()), "idok", reURLSafe.MatchString(s.Id()))...)
+		trs := ""
+		if tr := s.Transport(); tr != nil {
+			trs = tr.ReadyState()
+		}
+		w.rec.Log("srv.connection", append(w.snap(s), "proto", s.Protocol(), "clients", w.Srv.Clients().Len(), "count", int64(w.Srv.ClientsCount()), "idok", reURLSafe.MatchString(s.Id()), "trs", trs)...)
 		w.observeSocket(s)
 		if h := w.hooks["connection"]; h != nil {
 			h(s.Id())
